@@ -263,7 +263,7 @@ func raggedTable(r *rng.R, ids func() string) *document.Table {
 		b.WriteString("</w:tblGrid>")
 	}
 	// vertical merges in the form Word writes them: the first cell says restart, the continuation cells carry a bare <w:vMerge/>
-	// (a missing val means continue); rows of such a table are rectangular so that the merged cells line up
+	// (a missing val means continue)
 	vm := map[[2]int]string{}
 	if rows >= 2 && r.Chance(2, 5) {
 		for k := r.Range(1, 2); k > 0; k-- {
@@ -285,27 +285,39 @@ func raggedTable(r *rng.R, ids func() string) *document.Table {
 	}
 	for i := 0; i < rows; i++ {
 		b.WriteString("<w:tr>")
-		n := cols
+		limit := cols // grid columns this row covers (fewer or one more in ragged tables)
 		if r.Chance(1, 3) && len(vm) == 0 {
-			n = r.Range(1, cols+1)
+			limit = r.Range(1, cols+1)
 		}
-		left := cols
-		for j := 0; j < n; j++ {
+		// the row is a partition of the grid columns into cells; a cell that takes part in a vertical merge occupies exactly its grid
+		// column in every row of the merge, the cells left and right of it may be merged horizontally in any way (so the physical
+		// index of the merged cell differs from row to row)
+		for g := 0; g < limit; {
 			span := 1
-			if r.Chance(1, 5) && left > 1 && len(vm) == 0 {
-				span = r.Range(2, left)
+			mark, forced := vm[[2]int{i, g}]
+			if !forced {
+				max := 0
+				for q := g; q < limit; q++ {
+					if _, f := vm[[2]int{i, q}]; f {
+						break
+					}
+					max++
+				}
+				if r.Chance(1, 4) && max > 1 {
+					span = r.Range(2, max)
+				}
 			}
-			left -= span
 			b.WriteString("<w:tc><w:tcPr><w:tcW w:w=\"1000\" w:type=\"dxa\"/>")
 			if span > 1 {
 				fmt.Fprintf(&b, "<w:gridSpan w:val=\"%d\"/>", span)
 			}
-			b.WriteString(vm[[2]int{i, j}])
+			b.WriteString(mark)
 			b.WriteString("</w:tcPr><w:p><w:r><w:t>" + ids() + "</w:t></w:r></w:p>")
 			if r.Chance(1, 10) {
 				b.WriteString("<w:tbl><w:tr><w:tc><w:p><w:r><w:t>n</w:t></w:r></w:p></w:tc></w:tr></w:tbl><w:p/>")
 			}
 			b.WriteString("</w:tc>")
+			g += span
 		}
 		b.WriteString("</w:tr>")
 	}
@@ -665,6 +677,21 @@ func c09Case(c *core.Ctx) *core.Result {
 				n = len(before.Rows[i])
 			}
 			j := idx(n)
+			if r.Bool() {
+				// aim at a merged cell (start of a vertical merge or a horizontally merged cell) when the table has one
+				var hits [][2]int
+				for ri := range before.Rows {
+					for ci, pc := range before.Rows[ri] {
+						if pc.VM == "restart" || pc.Span > 1 {
+							hits = append(hits, [2]int{ri, ci})
+						}
+					}
+				}
+				if len(hits) > 0 {
+					h := hits[r.Intn(len(hits))]
+					i, j = h[0], h[1]
+				}
+			}
 			op = "UnmergeCells"
 			structural = true
 			call = func() { err = t.UnmergeCells(i, j) }
@@ -904,7 +931,7 @@ func init() {
 			"with indices inside, at, beyond the bounds, negative and inverted, also on reopened tables and harness-built opened tables without grid / with ragged rows / spans / nested tables; every cell text is a unique id. After EVERY call: panic => violation; error => deep snapshot unchanged; success => " +
 			"result equals the physical rows-by-columns reference (exact for regular tables; for column edits through merges only invariants), invariants (row span = grid columns, >=1 paragraph per cell, vMerge continuation under a matching start) not newly broken, untouched cell ids conserved in order, readers agree; CopyTable: equal, no shared heap objects, original unchanged. " +
 			"Non-trivial: >=3 successful edits of >=2 kinds; distinct = origin + call sequence.",
-		Cases:         func(t string) int { return tierN(t, 2500, 80000) },
+		Cases:         func(t string) int { return tierN(t, 10000, 80000) },
 		Run:           c09Case,
 		Assume:        []string{"indices are physical cell indices, as in the library's API", "the text written into a targeted cell is not compared, only that all other cells are where the reference says"},
 		CaseTimeoutS:  60,
